@@ -542,9 +542,15 @@ example : workloadName web1 = "n/web[Deployment]" ∧ workloadName web2 = "n/web
     workloadBase web1 = "n/web" ∧ workloadBase { web1 with ownerKind := "ReplicaSet" } = "n/web" := by
   decide
 
-/-- the workload peers of the engine: three, for four pods -/
+/-- the workload peers of the engine: three, for four pods, in the order of the pod keys
+(`n/client-1 < n/web-1 < n/web-2 < n/web2-1`; `podOwnersMap_eq` because `decide` does not unfold the
+`mergeSort` of `sortedPods`) -/
 example : (eng.podOwnersMap.toOption.map fun l => l.map (·.1)) =
-    some ["n/web[Deployment]", "n/web2[StatefulSet]", "n/client[Job]"] := by decide
+    some ["n/client[Job]", "n/web[Deployment]", "n/web2[StatefulSet]"] := by
+  rw [Structure.podOwnersMap_eq
+    (l := podsFromWorkload job ++ (podsFromWorkload dep ++ podsFromWorkload sts))
+    List.perm_append_comm (by decide)]
+  decide
 
 end Example
 
